@@ -113,6 +113,7 @@ type c17Case struct {
 type c17St struct {
 	Filter string `json:"filter"`
 	B      *numOp `json:"b,omitempty"`
+	Wrap   bool   `json:"wrap,omitempty"` // the argument is written as a parenthesised filtered expression with the same value: (cK | default: 1)
 }
 
 func (c *c17Case) source() (string, map[string]any) {
@@ -127,6 +128,9 @@ func (c *c17Case) source() (string, map[string]any) {
 		if st.B != nil {
 			name := fmt.Sprintf("c%d", i)
 			b[name] = st.B.goValue()
+			if st.Wrap && (st.B.Kind == "int" || st.B.Kind == "float") {
+				name = "(" + name + " | default: 1)"
+			}
 			src += ": " + name
 		}
 	}
@@ -190,6 +194,7 @@ func c17Model(filter string, a *big.Rat, bo *numOp) c17Exp {
 	case "round":
 		places := int64(0)
 		if bo != nil {
+			// (a negative number of places is exercised but not judged: the statement does not say what it means)
 			if bo.Kind != "int" || bo.I < 0 || bo.I > 6 {
 				return c17Exp{unspecified: true}
 			}
@@ -212,7 +217,7 @@ var c17Apply = hx.Define("c17.apply", func(c *c17Case, s *hx.Sub) *hx.Violation 
 	}
 	// walk the chain through the model
 	cur, ok, unspec := c.A.rat(true)
-	steps := append([]c17St{{c.Filter, c.B}}, c.Chain...)
+	steps := append([]c17St{{Filter: c.Filter, B: c.B}}, c.Chain...)
 	var last c17Exp
 	expectErr := false
 	if unspec {
@@ -363,7 +368,7 @@ func TestC17(t *testing.T) {
 	env := col.Env
 	u := c17Universe()
 
-	grid := c17Apply.On(col, "exhaustive: every pair of the numeric universe (ints -12..12, +-2^31, +-(2^53-1), 2^53; quarters k/4 |k|<=20; numeric and non-numeric strings; nil) x {plus minus times divided_by modulo}, every value x {abs ceil floor round, round: 0..3}; then random chains of <= 6 filters. Oracle: exact rational arithmetic (math/big), output parsed to float64. Non-trivial: both operands numbers, result differs from the receiver (or an error is required); distinct by template+bindings", false)
+	grid := c17Apply.On(col, "exhaustive: every pair of the numeric universe (ints -12..12, +-2^31, +-(2^53-1), 2^53; quarters k/4 |k|<=20; numeric and non-numeric strings; nil) x {plus minus times divided_by modulo}, every value x {abs ceil floor round, round: -2..3 (negative places exercised, not judged)}; then random chains of <= 6 filters, a quarter of the arguments written as a parenthesised filtered expression of the same value. Oracle: exact rational arithmetic (math/big), output parsed to float64. Non-trivial: both operands numbers, result differs from the receiver (or an error is required); distinct by template+bindings", false)
 	idx := 0
 	for _, f := range c17Binary {
 		for i := range u {
@@ -383,7 +388,7 @@ func TestC17(t *testing.T) {
 				grid.Run(&c17Case{Filter: f, A: u[i]})
 			}
 			if f == "round" {
-				for p := int64(0); p <= 3; p++ {
+				for p := int64(-2); p <= 3; p++ {
 					idx++
 					if env.Mine(idx) {
 						grid.Run(&c17Case{Filter: f, A: u[i], B: &numOp{Kind: "int", I: p}})
@@ -417,12 +422,12 @@ func TestC17(t *testing.T) {
 		if rapid.IntRange(0, 3).Draw(t, "unary") == 0 {
 			f := rapid.SampledFrom(c17Unary).Draw(t, "f")
 			if f == "round" && rapid.Bool().Draw(t, "places") {
-				return c17St{Filter: f, B: &numOp{Kind: "int", I: int64(rapid.IntRange(0, 3).Draw(t, "p"))}}
+				return c17St{Filter: f, B: &numOp{Kind: "int", I: int64(rapid.IntRange(-2, 3).Draw(t, "p"))}, Wrap: rapid.IntRange(0, 3).Draw(t, "wrap") == 0}
 			}
 			return c17St{Filter: f}
 		}
 		b := genOp.Draw(t, "b")
-		return c17St{Filter: rapid.SampledFrom(c17Binary).Draw(t, "f"), B: &b}
+		return c17St{Filter: rapid.SampledFrom(c17Binary).Draw(t, "f"), B: &b, Wrap: rapid.IntRange(0, 3).Draw(t, "wrap") == 0}
 	})
 	col.Rapid(grid.Sub, env.PerShard(env.Pick(200000, 2000000)), func(t *rapid.T) {
 		steps := rapid.SliceOfN(genStep, 2, 6).Draw(t, "steps")
